@@ -479,8 +479,9 @@ def lift_and_geobox(R: Run, Rm, GeoBox, GeoboxTiles):
         R.corr(f"c04 g clip {head} {list_s([f'{p[0]};{p[1]}' for p in sel])}", gclip)
         if cres and sel and all(0 <= p[0] < Ty and 0 <= p[1] < Tx for p in sel):
             c, new = cres[0]
-            ok = all(_same_gbox(c[p_new], gbt[p_old]) for p_old, p_new in zip(sel, new))
-            R.oracle(ok, "gbt-clip-tile-differs", {"line": head, "sel": sel}, "tile of clipped grid != original tile")
+            ok = guarded(lambda: str(all(_same_gbox(c[p_new], gbt[p_old]) for p_old, p_new in zip(sel, new))))
+            R.oracle(ok == "True", "gbt-clip-tile-differs", {"line": head, "sel": sel},
+                     f"tile of clipped grid != original tile ({ok})")
 
 
 def _apply(A, x, y):
@@ -556,8 +557,16 @@ def asm_case(R: Run, BlockAssembler, chy, chx, keys, lead, trail, dtype, win, tw
     line = (f"c04 asm {ints(chy)} {ints(chx)} {list_s([f'{k[0]};{k[1]}' for k in keys])} {ints(lead)} {ints(trail)} "
             f"{list_s([enc(s) for s in wl])} {enc(wy)} {enc(wx)} {list_s([enc(s) for s in wt])} {m}")
     nblk = len(keys)
-    R.corr(line, f, sig=f"asm|{'none' if nblk == 0 else 'all' if nblk == len(chy) * len(chx) else 'some'}|a{a}t{len(trail)}")
+    real_out = R.corr(line, f, sig=f"asm|{'none' if nblk == 0 else 'all' if nblk == len(chy) * len(chx) else 'some'}|a{a}t{len(trail)}")
     if not res:
+        # a window of the mosaic (non-negative extents, extra-axis windows inside their axes) must not raise
+        (y0_, y1_), (x0_, x1_) = norm_py(wy, sum(chy)), norm_py(wx, sum(chx))
+        ext_ok = all(0 <= a_ <= b_ <= n for (a_, b_), n in zip([norm_py(s_, n) for s_, n in zip(list(wl) + list(wt), list(lead) + list(trail))],
+                                                               list(lead) + list(trail)))
+        if 0 <= y0_ <= y1_ and 0 <= x0_ <= x1_ and ext_ok:
+            R.oracle(False, "assemble-window-raises", {"line": line, "dtype": dtype, "two_tuple": two_tuple,
+                                                        "fill_explicit": fill_explicit},
+                     f"extract raised {real_out} for a legitimate window", sig="asm-raises")
         return
     asm, xx = res[0]
     # oracle: numpy mosaic built without the library's offset / intersection code
@@ -604,8 +613,8 @@ def assembler(R: Run, BlockAssembler):
             for mask in subsets:
                 keys = [k for j, k in enumerate(allk) if mask >> j & 1]
                 rng.shuffle(keys)
-                lead = rng.choice([[], [], [2]])
-                trail = rng.choice([[], [2], [3], []])
+                lead = rng.choice([[], [], [2], [1]])
+                trail = rng.choice([[], [2], [3], [], [1]])
                 dtype = rng.choice(DTYPES)
                 if not keys:  # without blocks the assembler knows neither extra axes nor dtype
                     lead, trail, dtype = [], [], "float32"
@@ -1332,6 +1341,179 @@ def stateful_sequences(R: Run, Rm, GeoBox, GeoboxTiles, BlockAssembler):
             sequence_vs_fresh(R, mk_a, calls_a, dict(case, keys=keys, lead=lead), "BlockAssembler")
 
 
+
+# ------------------------------------------------------------------ zero-size members: __getitem__ == crop == roi-based crop
+def empty_members_stream(R: Run, Rm, GeoBox, GeoboxTiles):
+    """Zero-length chunks, empty tile ranges (gbt[i:i, :]) and blocks of zero-size rows / columns are legitimate: every
+    such index must be addressable and GeoboxTiles[idx], .crop[idx].base and base[.roi[idx]] must be the same GeoBox,
+    namely the parent cropped to the region computed from the chunk tuples (two-sided, empty shapes included)."""
+    from affine import Affine
+
+    rng = R.rng
+    specs = [("v", (5, 0, 15), (10, 20, 0)), ("v", (0, 2, 0), (3,)), ("v", (2, 0, 0, 1), (0, 1, 2)), ("r", (7, 3), (5, 2)),
+             ("r", (4, 4), (6, 5)), ("v", (1, 1), (0, 0, 4))]
+    for _ in range(R.pick(12, 120)):
+        chy = [rng.choice([0, 0, 1, 2, 3]) for _ in range(rng.randint(1, 5))]
+        chx = [rng.choice([0, 1, 2, 0, 4]) for _ in range(rng.randint(1, 5))]
+        if sum(chy) and sum(chx):
+            specs.append(("v", tuple(chy), tuple(chx)))
+    for kind, sy, sx in specs:
+        chy, chx = chunks_of(kind, sy), chunks_of(kind, sx)
+        Ty, Tx, NY, NX = len(chy), len(chx), sum(chy), sum(chx)
+        oy, ox = [0], [0]
+        for c_ in chy:
+            oy.append(oy[-1] + c_)
+        for c_ in chx:
+            ox.append(ox[-1] + c_)
+        A = Affine(rng.choice([1, 2, 0.5]), 0, rng.randint(-40, 40) / 4, 0, -rng.choice([1, 2, 0.5]), rng.randint(-40, 40) / 4)
+        tshape = (sy[1], sx[1]) if kind == "r" else (tuple(sy), tuple(sx))
+        gbt = GeoboxTiles(GeoBox((NY, NX), A, "EPSG:3857"), tshape)
+        # per-axis index expressions: every int, every range a:b with a <= b (a == b: empty range), open ends
+        def axis_idx(T):
+            out = list(range(T)) + [slice(a_, b_) for a_ in range(T + 1) for b_ in range(a_, T + 1)]
+            return out + [slice(None), slice(None, 0), slice(T, None)]
+
+        ys, xs = axis_idx(Ty), axis_idx(Tx)
+        pairs = [(iy, ix) for iy in ys for ix in xs]
+        if len(pairs) > R.pick(160, 600):
+            pairs = rng.sample(pairs, R.pick(160, 600))
+
+        def span(i, T, off, regular_n=None):
+            a_, b_ = (i, i + 1) if isinstance(i, int) else norm_py(i, T)
+            if kind == "r" and a_ >= T:     # regular tiles: a range starting past the last tile is out of range
+                return None
+            if a_ > T or b_ > T:
+                return None
+            return off[a_], off[b_]
+
+        for iy, ix in pairs:
+            sy_, sx_ = span(iy, Ty, oy), span(ix, Tx, ox)
+
+            def gb_s(g):
+                return f"{g.shape.y} {g.shape.x} {frac_s(g.affine.c)} {frac_s(g.affine.f)} {frac_s(g.affine.a)} {frac_s(g.affine.e)}"
+
+            three = {
+                "[]": guarded(lambda: gb_s(gbt[iy, ix])),
+                "crop[]": guarded(lambda: gb_s(gbt.crop[iy, ix].base)),
+                "base[roi[]]": guarded(lambda: gb_s(gbt.base[gbt.roi[iy, ix]])),
+            }
+            case = {"spec": [kind, list(sy), list(sx)], "A": aff_s(A), "idx": [enc(iy), enc(ix)]}
+            R.oracle(len(set(three.values())) == 1, "gbt-getitem-crop-roi-disagree", case,
+                     f"GeoboxTiles[idx], .crop[idx].base and base[.roi[idx]] differ: {three}", sig="empty|agree",
+                     trivial=not (sy_ and sx_ and (sy_[0] == sy_[1] or sx_[0] == sx_[1])))
+            if sy_ is not None and sx_ is not None:
+                w0 = _apply(A, sx_[0], sy_[0])
+                want = f"{sy_[1] - sy_[0]} {sx_[1] - sx_[0]} {frac_s(w0[0])} {frac_s(w0[1])} {frac_s(A.a)} {frac_s(A.e)}"
+                R.oracle(three["[]"] == want, "gbt-tile-not-parent-crop", case,
+                         f"GeoboxTiles[{enc(iy)}, {enc(ix)}] = {three['[]']}, the parent cropped to rows {sy_} cols {sx_} is {want}",
+                         sig="empty|two-sided" + ("|zero-size" if sy_[0] == sy_[1] or sx_[0] == sx_[1] else ""))
+        # clip to a block that contains zero-size rows / columns
+        for _k in range(R.pick(6, 20)):
+            sel = [(rng.randint(0, Ty - 1), rng.randint(0, Tx - 1)) for _ in range(rng.randint(1, 3))]
+            a_, b_ = min(p_[0] for p_ in sel), max(p_[0] for p_ in sel) + 1
+            c_, d_ = min(p_[1] for p_ in sel), max(p_[1] for p_ in sel) + 1
+            w0 = _apply(A, ox[c_], oy[a_])
+            want = f"{oy[b_] - oy[a_]} {ox[d_] - ox[c_]} {frac_s(w0[0])} {frac_s(w0[1])} {[(r - a_, c - c_) for r, c in sel]}"
+            got = guarded(lambda: (lambda g, new: f"{g.base.shape.y} {g.base.shape.x} {frac_s(g.base.affine.c)} "
+                                   f"{frac_s(g.base.affine.f)} {[tuple(int(v) for v in p_) for p_ in new]}")(*gbt.clip(sel)))
+            R.oracle(got == want, "gbt-clip-block-wrong", {"spec": [kind, list(sy), list(sx)], "A": aff_s(A), "sel": sel},
+                     f"clip({sel}) = {got}, want {want}", sig="empty|clip")
+
+
+# ------------------------------------------------------------------ every spelling of a window, every block rank
+def window_spellings(R: Run, BlockAssembler):
+    """extract(roi=w) / assembler[w] for each of Y and X given as int, negative int, slice, open slice; the window as
+    2-tuple, full-rank tuple (extra axes as slices or ints), planes_yx()-style roi, 1-tuple, bare index or None; blocks
+    of rank 2 and with leading / trailing axes of length 1 and > 1.  Reference: the numpy mosaic indexed with the same
+    window, Y / X ints kept as length-1 axes (the library's documented choice), ints on other axes squeezed by numpy;
+    values and the exact shape must agree."""
+    rng = R.rng
+    ranks = [([], []), ([1], []), ([3], []), ([], [2]), ([], [1]), ([1], [2]), ([2], [1]), ([1, 2], []), ([2], [3])]
+    for it in range(R.pick(70, 700)):
+        lead, trail = ranks[it % len(ranks)]
+        a = len(lead)
+        ty, tx = rng.randint(1, 3), rng.randint(1, 3)
+        chy = [rng.choice([1, 2, 3, 0, 4]) for _ in range(ty)]
+        chx = [rng.choice([1, 2, 5, 0, 3]) for _ in range(tx)]
+        NY, NX = sum(chy), sum(chx)
+        if NY == 0 or NX == 0:
+            continue
+        keys = [(iy, ix) for iy in range(ty) for ix in range(tx) if rng.random() < 0.7] or [(0, 0)]
+        blocks = {k: (cell_vals(100, k, lead, chy[k[0]], chx[k[1]], trail) + 1).astype("int16") for k in keys}
+        oy = np.concatenate([[0], np.cumsum(chy)]).astype(int)
+        ox = np.concatenate([[0], np.cumsum(chx)]).astype(int)
+        FILL = -5
+        mosaic = np.full((*lead, NY, NX, *trail), FILL, dtype="int16")
+        for k, b in blocks.items():
+            mosaic[(*[slice(None)] * a, slice(oy[k[0]], oy[k[0] + 1]), slice(ox[k[1]], ox[k[1] + 1]))] = b
+        try:
+            asm = BlockAssembler(blocks, (tuple(chy), tuple(chx)), axis=a)
+        except Exception as e:  # pylint: disable=broad-except
+            R.oracle(False, "assembler-raises", {"chy": chy, "chx": chx, "lead": lead, "trail": trail}, repr(e))
+            continue
+        shape = (*lead, NY, NX, *trail)
+
+        def one_axis(n, yx):
+            r = rng.random()
+            if r < 0.3:
+                return rng.randint(0, n - 1)
+            if r < 0.45:
+                return rng.randint(-n, -1)
+            if r < 0.6:
+                return slice(None)
+            a_ = rng.randint(0, n - 1)
+            b_ = rng.randint(a_ + (1 if not yx or rng.random() < 0.8 else 0), n)
+            return slice(rng.choice([None, a_]) if a_ == 0 else a_, rng.choice([None, b_]) if b_ == n else b_)
+
+        planes = list(asm.planes_yx())
+        for _k in range(R.pick(8, 12)):
+            wy, wx = one_axis(NY, True), one_axis(NX, True)
+            form = rng.choice(["2-tuple", "2-tuple", "full", "full", "planes", "none", "1-tuple", "bare"])
+            if form == "2-tuple":
+                roi = (wy, wx)
+                full = [slice(None)] * a + [wy, wx] + [slice(None)] * len(trail)
+            elif form == "full":
+                full = [one_axis(n, False) for n in lead] + [wy, wx] + [one_axis(n, False) for n in trail]
+                roi = tuple(full)
+            elif form == "planes":
+                p_ = list(rng.choice(planes))
+                p_[a], p_[a + 1] = wy, wx
+                roi, full = tuple(p_), p_
+            elif form == "none":
+                roi, full = None, [slice(None)] * len(shape)
+            else:
+                first = one_axis(shape[0], a == 0)
+                roi = (first,) if form == "1-tuple" else first
+                full = [first] + [slice(None)] * (len(shape) - 1)
+                if len(shape) == 2 and form == "1-tuple":
+                    continue  # a 1-tuple on a 2-D assembler is read as ... two missing axes: same as below, keep simple
+            # reference index: Y / X ints stay as length-1 axes
+            ref = []
+            for ax_i, (ix_, n) in enumerate(zip(full, shape)):
+                if ax_i in (a, a + 1) and isinstance(ix_, int):
+                    j = n + ix_ if ix_ < 0 else ix_
+                    ref.append(slice(j, j + 1))
+                else:
+                    ref.append(ix_)
+            want = mosaic[tuple(ref)]
+            case = {"chy": chy, "chx": chx, "keys": keys, "lead": lead, "trail": trail, "form": form,
+                    "roi": "None" if roi is None else [enc(v) for v in (roi if isinstance(roi, tuple) else (roi,))]}
+            for how, fn in (("extract", lambda: asm.extract(FILL, roi=roi)), ("[]", lambda: asm[roi] if roi is not None else asm.extract())):
+                if how == "[]" and rng.random() < 0.5:
+                    continue
+                got = guarded(fn)
+                if how == "[]" and isinstance(got, np.ndarray):
+                    got = np.where(got == 0, FILL, got) if False else got
+                    w2 = np.where(want == FILL, 0, want)      # default fill of an int16 mosaic is 0
+                else:
+                    w2 = want
+                ok = isinstance(got, np.ndarray) and got.shape == w2.shape and bool(np.array_equal(got, w2))
+                R.oracle(ok, "assemble-window-spelling-wrong", dict(case, call=how),
+                         f"{how}: {'shape ' + str(got.shape) if isinstance(got, np.ndarray) else got}, numpy mosaic gives shape {w2.shape}"
+                         + (f"; cells {got.tolist()} vs {w2.tolist()}" if isinstance(got, np.ndarray) and got.shape == w2.shape else ""),
+                         sig=f"win|{form}|a{a}t{len(trail)}")
+
+
 # ------------------------------------------------------------------ entry points
 def huge_stream(R: Run, Rm):
     """Tiles.__init__ used to divide in doubles (`int(math.ceil(float(N) / n))`): sizes around and far beyond
@@ -1458,16 +1640,31 @@ def run(R: Run):
     for ch in ([2 ** 30, 2 ** 30], [2 ** 31 - 1, 1], [2 ** 31 - 1, 2 ** 31 - 1, 5], [2 ** 30, 2 ** 30, 2 ** 30, 2 ** 30, 7]):
         variable_case(R, Rm, ch, axis=0, full=False)
 
-    lift_and_geobox(R, Rm, GeoBox, GeoboxTiles)
-    assembler(R, BlockAssembler)
-    assembler_held(R, BlockAssembler)
-    assembler_dtypes(R, BlockAssembler)
-    assembler_lazy_and_threads(R, BlockAssembler)
-    assembler_interleaved(R, BlockAssembler)
-    stateful_sequences(R, Rm, GeoBox, GeoboxTiles, BlockAssembler)
-    index_types_stream(R, Rm, GeoBox, GeoboxTiles)
-    huge_stream(R, Rm)
-    int32_edge_stream(R, Rm)
+    import traceback
+
+    def stream(fn, *args):
+        """an exception of the real code escaping a stream is reported (with the place) and the other streams still run"""
+        try:
+            fn(*args)
+        except Exception as e:  # pylint: disable=broad-except
+            tb = traceback.extract_tb(e.__traceback__)
+            where = [f"{f.filename.split('/')[-1]}:{f.lineno} {f.name}" for f in tb if "/harness/" not in f.filename][-3:]
+            R.oracle(False, "unexpected-exception", {"stream": fn.__name__, "exception": repr(e)[:200], "raised_in": where,
+                                                     "called_from": [f"{f.lineno} {f.line}" for f in tb if "/harness/" in f.filename][-1:]},
+                     f"{fn.__name__}: the real code raised {e!r}", sig="unexpected-exception")
+
+    stream(lift_and_geobox, R, Rm, GeoBox, GeoboxTiles)
+    stream(empty_members_stream, R, Rm, GeoBox, GeoboxTiles)
+    stream(assembler, R, BlockAssembler)
+    stream(window_spellings, R, BlockAssembler)
+    stream(assembler_held, R, BlockAssembler)
+    stream(assembler_dtypes, R, BlockAssembler)
+    stream(assembler_lazy_and_threads, R, BlockAssembler)
+    stream(assembler_interleaved, R, BlockAssembler)
+    stream(stateful_sequences, R, Rm, GeoBox, GeoboxTiles, BlockAssembler)
+    stream(index_types_stream, R, Rm, GeoBox, GeoboxTiles)
+    stream(huge_stream, R, Rm)
+    stream(int32_edge_stream, R, Rm)
 
     R.searchers.append(search_harder)
     R.exhaustive = False
